@@ -49,4 +49,13 @@ def r4_who_writes(ctx):
         o["rule"] = "R4"
 
 
-RULES = [("R1", r1_tables), ("R2", r2_consumed), ("R3", r3_position), ("R4", r4_who_writes)]
+def r5_whole_writes(ctx):
+    """what the writer emits reaches the sink completely: sinks are written only through write_all (C13 R5)"""
+    import c13
+    n0 = len(ctx.obs)
+    c13.r5_no_partial_write(ctx)
+    for o in ctx.obs[n0:]:
+        o["site"] = "sink:" + o["site"]
+        o["rule"] = "R5"
+
+RULES = [("R1", r1_tables), ("R2", r2_consumed), ("R3", r3_position), ("R4", r4_who_writes), ("R5", r5_whole_writes)]
